@@ -139,16 +139,16 @@ theorem build_slice_registered {cfg : Cfg} {d : TyDef} {tag : String} {c : Ty}
 /-- map key: `CodecForTypeRegistry(registry, typ.Key(), "")`. -/
 theorem build_map_key_registered {cfg : Cfg} {k v : TyDef} {tag : String} {c vc : Ty}
     (h : customLoad cfg k "" = some c) (hk : v.kind ≠ .map) (hv : build cfg v "" = .ok vc)
-    (hps : vc.isProtoSlice = false) :
+    (hps : vc.isProtoSlice = false) (hpk : c.isProtoSlice = false) :
     build cfg (.map k v) tag = .ok (.map c vc (tag == "proto")) := by
-  rw [build]; simp [hk, build_of_customLoad h, hv, hps]
+  rw [build]; simp [hk, build_of_customLoad h, hv, hps, hpk]
 
 /-- map value: `CodecForTypeRegistry(registry, typ.Elem(), "")`. -/
 theorem build_map_val_registered {cfg : Cfg} {k v : TyDef} {tag : String} {c kc : Ty}
     (h : customLoad cfg v "" = some c) (hk : v.kind ≠ .map) (hkc : build cfg k "" = .ok kc)
-    (hps : c.isProtoSlice = false) :
+    (hps : c.isProtoSlice = false) (hpk : kc.isProtoSlice = false) :
     build cfg (.map k v) tag = .ok (.map kc c (tag == "proto")) := by
-  rw [build]; simp [hk, build_of_customLoad h, hkc, hps]
+  rw [build]; simp [hk, build_of_customLoad h, hkc, hps, hpk]
 
 /-- a tag the field loop accepts is neither empty nor "-". -/
 theorem ptag_ok {ptag idxS : String} {pfx : Option String} {idx : Int}
@@ -318,15 +318,15 @@ theorem buildNamed_slice_registered {cfg : Cfg} {n : String} {d : TyDef} {tag : 
 
 theorem buildNamed_map_key_registered {cfg : Cfg} {n : String} {k v : TyDef} {tag : String} {c vc : Ty}
     (h : customLoad cfg k "" = some c) (hk : v.kind ≠ .map) (hv : build cfg v "" = .ok vc)
-    (hps : vc.isProtoSlice = false) :
+    (hps : vc.isProtoSlice = false) (hpk : c.isProtoSlice = false) :
     buildNamed cfg n (.map k v) tag = .ok (.map c vc (tag == "proto")) := by
-  rw [buildNamed_map, build_map_key_registered h hk hv hps]
+  rw [buildNamed_map, build_map_key_registered h hk hv hps hpk]
 
 theorem buildNamed_map_val_registered {cfg : Cfg} {n : String} {k v : TyDef} {tag : String} {c kc : Ty}
     (h : customLoad cfg v "" = some c) (hk : v.kind ≠ .map) (hkc : build cfg k "" = .ok kc)
-    (hps : c.isProtoSlice = false) :
+    (hps : c.isProtoSlice = false) (hpk : kc.isProtoSlice = false) :
     buildNamed cfg n (.map k v) tag = .ok (.map kc c (tag == "proto")) := by
-  rw [buildNamed_map, build_map_val_registered h hk hkc hps]
+  rw [buildNamed_map, build_map_val_registered h hk hkc hps hpk]
 
 /-! ### when does a slice type hit the registry -/
 
